@@ -336,3 +336,108 @@ func c07wireShapes(stats map[string]int) {
 		}
 	}
 }
+
+// c07wireReturnEntity: collRR declares read-only fields (id, nested/b) and its create, batch_create and partial_update
+// return the entity, so the server registers them through the ...WithReturnEntity adapters.
+func c07wireReturnEntity(stats map[string]int) {
+	name := "collRR"
+	info, ok := resources[name]
+	if !ok {
+		violation("C07/wire/no-such-resource/"+name, "generated bindings lack resource "+name, nil)
+		return
+	}
+	invoked := 0
+	mock := reflect.New(info.mock)
+	retGen := &gen{text: "x", n: 500}
+	for i := 0; i < info.mock.NumField(); i++ {
+		ft := info.mock.Field(i).Type
+		mock.Elem().Field(i).Set(reflect.MakeFunc(ft, func(args []reflect.Value) []reflect.Value {
+			invoked++
+			rets := make([]reflect.Value, ft.NumOut())
+			for o := 0; o < ft.NumOut(); o++ {
+				if ft.Out(o).Name() == "error" {
+					rets[o] = reflect.Zero(ft.Out(o))
+				} else {
+					rets[o] = scripted(retGen, ft.Out(o), args[1:])
+				}
+			}
+			return rets
+		}))
+	}
+	server := restli.NewServer()
+	info.register(server, mock.Interface())
+	rec := &wireRec{}
+	bu, _ := url.Parse("http://host.example")
+	rc := &restli.Client{Client: &http.Client{Transport: &transport{h: server.Handler(), rec: rec}}, HostnameResolver: &restli.SimpleHostnameResolver{Hostname: bu}}
+	client := reflect.ValueOf(info.newClient(rc))
+	full := &gen{text: "x", noExcl: false}
+	for _, mname := range []string{"Create", "BatchCreate"} {
+		m := client.MethodByName(mname)
+		if !m.IsValid() {
+			violation("C07/wire/no-such-method/"+name+"."+mname, "generated client lacks the method", nil)
+			continue
+		}
+		var args []reflect.Value
+		for i := 0; i < m.Type().NumIn(); i++ {
+			args = append(args, full.value(m.Type().In(i), ""))
+		}
+		*rec = wireRec{}
+		before := invoked
+		rets := m.Call(args)
+		stats["c07_client_calls"]++
+		cs := map[string]any{"resource": name, "method": mname, "request_body": rec.body}
+		var doc map[string]any
+		json.Unmarshal([]byte(rec.body), &doc)
+		ents := []any{doc}
+		if mname == "BatchCreate" {
+			ents, _ = doc["elements"].([]any)
+		}
+		leaked := len(ents) == 0
+		for _, e := range ents {
+			em, _ := e.(map[string]any)
+			_, hasID := em["id"]
+			nested, _ := em["nested"].(map[string]any)
+			_, hasB := nested["b"]
+			leaked = leaked || em == nil || hasID || hasB
+		}
+		if leaked {
+			violation("C07/wire/client-transmits-excluded-field/"+name+"."+mname, fmt.Sprintf("%s.%s transmitted a read-only field (id, nested/b): %s", name, mname, rec.body), cs)
+		}
+		if e := rets[len(rets)-1]; !e.IsNil() || invoked != before+1 {
+			violation("C07/wire/client-call-with-excluded-fields-failed/"+name+"."+mname, fmt.Sprintf("the call did not reach the resource (error %v)", rets[len(rets)-1]), cs)
+		}
+	}
+	h := server.Handler()
+	probes := []struct {
+		pname, verb, target, method, body string
+		offending                         bool
+	}{
+		{"create/id", "POST", "/collRR", "create", `{"name":"n","id":5}`, true},
+		{"create/nested.b", "POST", "/collRR", "create", `{"name":"n","nested":{"a":1,"b":"x"}}`, true},
+		{"create/clean", "POST", "/collRR", "create", `{"name":"n","nested":{"a":1}}`, false},
+		{"batch_create/id", "POST", "/collRR", "batch_create", `{"elements":[{"name":"n"},{"name":"m","id":5}]}`, true},
+		{"batch_create/nested.b", "POST", "/collRR", "batch_create", `{"elements":[{"name":"n","nested":{"a":1,"b":"x"}}]}`, true},
+		{"batch_create/clean", "POST", "/collRR", "batch_create", `{"elements":[{"name":"n"},{"name":"m","nested":{"a":1}}]}`, false},
+		{"partial_update/set-id", "POST", "/collRR/1", "partial_update", `{"patch":{"$set":{"id":5}}}`, true},
+		{"partial_update/nested-set-b", "POST", "/collRR/1", "partial_update", `{"patch":{"nested":{"$set":{"b":"x"}}}}`, true},
+		{"partial_update/clean", "POST", "/collRR/1", "partial_update", `{"patch":{"$set":{"name":"n"},"nested":{"$set":{"a":2}}}}`, false},
+	}
+	for _, p := range probes {
+		before := invoked
+		*rec = wireRec{}
+		req, _ := http.NewRequest(p.verb, "http://host.example"+p.target, strings.NewReader(p.body))
+		req.Header.Set("X-RestLi-Method", p.method)
+		req.Header.Set("X-RestLi-Protocol-Version", "2.0.0")
+		req.Header.Set("Content-Type", "application/json")
+		res, _ := (&transport{h: h, rec: rec}).RoundTrip(req)
+		stats["c07_server_probes"]++
+		ran := invoked != before
+		cs := map[string]any{"resource": name, "probe": p.pname, "body": p.body, "status": res.StatusCode, "resource_invoked": ran}
+		if p.offending && (res.StatusCode != 400 || ran) {
+			violation("C07/wire/server-accepts-excluded-field/"+name+"/"+p.pname, fmt.Sprintf("%s %s with body %s: status %d, resource invoked: %v (expected 400, not invoked)", p.verb, p.target, p.body, res.StatusCode, ran), cs)
+		}
+		if !p.offending && (res.StatusCode >= 400 || !ran) {
+			violation("C07/wire/server-rejects-clean-body/"+name+"/"+p.pname, fmt.Sprintf("%s %s with body %s: status %d, resource invoked: %v", p.verb, p.target, p.body, res.StatusCode, ran), cs)
+		}
+	}
+}
